@@ -328,7 +328,7 @@ pub fn sweep<E: Ep>(m: &NetModel<E>, s: &St<E>) -> Option<(String, String, Value
             }
             m.stats.c03_feeds.fetch_add(1, Ordering::Relaxed);
             let mut e = s.ep[side].vclone();
-            let mut cb = Cb::new(s.now, RANDOM[side]);
+            let mut cb = Cb::with_draws(s.now, RANDOM[side], s.mon.draws[side]);
             let mut ev = Vec::new();
             let mut warn = Vec::new();
             let r = vp_core::catch(|| e.feed(&mut cb, &f.bytes, &mut ev, &mut warn));
